@@ -1,5 +1,5 @@
 # Per-property configuration of the check driver: parts (sub-harnesses), case counts per tier.
-HOOK_COMMITS = ['5d7d0e7', '69e30e4', 'f2318af', '1b17814', '0da0767', 'd46a054', '73e80e2', '5658069', 'd0a9566', 'e550869']
+HOOK_COMMITS = ['5d7d0e7', '69e30e4', 'f2318af', '1b17814', '0da0767', 'd46a054', '73e80e2', '5658069', 'd0a9566', 'e550869', 'b87bb64']
 NOT_APPLICABLE = {}
 
 CHECKS = {
@@ -95,6 +95,7 @@ CHECKS = {
         "level_text": "Random action sequences on a real TaskQueueSet + events handler with handshake handlers: mutual exclusion per queue, head-first execution, placement by queue name in arrival order, progress of other queues while one is stalled. Search, not proof.",
         "level_note": "Trusted: handshake handler (worker is parked in the handler or idle on an empty queue); progress is a bounded eventuality (20 s ceiling).",
         "parts": [
+            {"part": "e2e", "test": "TestQueuesE2E", "owned_schedule": False, "accept_unreproduced": True, "quick": {"checks": 160, "shards": 16, "shrinktime": "60s", "timeout": 900}, "thorough": {"checks": 3000, "shards": 16, "shrinktime": "120s", "timeout": 6000}},
             {"part": "queue", "test": "TestQueueSet", "quick": {"checks": 3000, "shards": 8}, "thorough": {"checks": 100000, "shards": 16, "timeout": 3000}},
             {"part": "readers", "test": "TestReaders", "quick": {"checks": 60, "shards": 4, "shrinktime": "20s"}, "thorough": {"checks": 2000, "shards": 8, "timeout": 3000}, "owned_schedule": False},
         ],
@@ -102,11 +103,12 @@ CHECKS = {
     "C17": {
         "pkg": "c17",
         "aux_builds": [{"pkg": "./cmd/vhook", "out": "vhook"}],
-        "technique": "stateful property-based testing (rapid): stop request injected at generated points of a queue-set run",
+        "technique": "stateful property-based testing (rapid): stop request injected at generated points of a queue-set run; shutdown of the whole operator at generated points with a backlog in a side queue (fault injection: API server not answering)",
         "level_text": "Random runs of the real queue set with a stop request at a generated point (idle, in handler, in back-off, tasks still arriving); counts handler starts after the request and checks worker termination. Search, not proof.",
         "level_note": "Trusted: handshake handler; an idle queue may legitimately pick one task that arrives around the stop request (select race in the wait loop), so <= 1 start is allowed there and 0 elsewhere.",
         "parts": [
             {"part": "queue", "test": "TestQueueStop", "quick": {"checks": 1600, "shards": 16}, "thorough": {"checks": 80000, "shards": 16, "timeout": 3000}},
+            {"part": "shutdown", "test": "TestShutdown", "owned_schedule": False, "accept_unreproduced": True, "quick": {"checks": 64, "shards": 16, "shrinktime": "30s", "timeout": 900}, "thorough": {"checks": 1600, "shards": 16, "shrinktime": "60s", "timeout": 6000}},
         ],
     },
     "C18": {
@@ -197,6 +199,7 @@ CHECKS = {
         "level_text": "Random configurations, histories and interleavings (the schedule is a generated value, shrunk and replayed) of informer deliveries, snapshot reads and the unlock on the real monitor; per-object replay oracle (view + Events reproduce the changes in order) and no Event before unlock. Search over schedules, not a proof.",
         "level_note": "Trusted: the yield points are between critical sections (lock-delimited atomic steps); watch events are delivered by the harness with reflector semantics; fake cluster as ground truth.",
         "parts": [
+            {"part": "monitors", "test": "TestMonitors", "owned_schedule": False, "quick": {"checks": 320, "shards": 16, "shrinktime": "60s", "timeout": 900}, "thorough": {"checks": 8000, "shards": 16, "shrinktime": "120s", "timeout": 6000}},
             {"part": "sched", "test": "TestSched", "quick": {"checks": 4000, "shards": 8}, "thorough": {"checks": 300000, "shards": 16, "timeout": 3000}},
             {"part": "e2e", "test": "TestE2E", "quick": {"checks": 240, "shards": 16, "shrinktime": "90s", "timeout": 900}, "thorough": {"checks": 5000, "shards": 16, "shrinktime": "180s", "timeout": 6000}, "owned_schedule": False},
         ],
@@ -209,6 +212,7 @@ CHECKS = {
         "level_text": "Random histories and interleavings on the real monitor; each Snapshot() result checked for structure (no duplicates, order, filter consistency) and against a reference cache model, and the quiescent snapshot against the cluster. Search, not proof.",
         "level_note": "Trusted: as C01; reference cache model in internal/ksched.",
         "parts": [
+            {"part": "monitors", "test": "TestMonitors", "owned_schedule": False, "quick": {"checks": 320, "shards": 16, "shrinktime": "60s", "timeout": 900}, "thorough": {"checks": 8000, "shards": 16, "shrinktime": "120s", "timeout": 6000}},
             {"part": "sched", "test": "TestSched", "quick": {"checks": 4000, "shards": 8}, "thorough": {"checks": 300000, "shards": 16, "timeout": 3000}},
             {"part": "updatesnapshots", "test": "TestUpdateSnapshots", "quick": {"checks": 3000, "shards": 8}, "thorough": {"checks": 800000, "shards": 16, "timeout": 3000}},
             {"part": "e2e", "test": "TestE2E", "quick": {"checks": 240, "shards": 16, "shrinktime": "90s", "timeout": 900}, "thorough": {"checks": 5000, "shards": 16, "shrinktime": "180s", "timeout": 6000}, "owned_schedule": False},
